@@ -85,3 +85,13 @@ PLANS["C05"] = Plan(
                 "scale/dimension/offset/registry postconditions; the algebraic laws are lemmas "
                 "over those contracts",
 )
+
+PLANS["C15"] = Plan(
+    level="proof",
+    ground=[G.g_constants],
+    trusted_base=BASE_TRUST,
+    explanation="defining relations among the constants proved as symbolic identities over the "
+                "primitive measured numbers (re-extracted from the source each run); every value, "
+                "dimension and name checked exhaustively against independent tables; unit/constant "
+                "coincidence symbolically and numerically",
+)
